@@ -5,6 +5,7 @@
     from location_record_key.go. *)
 From Coq Require Import List NArith Arith Bool Lia.
 From BBS Require Import Generated.Consts Index.Klm.
+(* -- (keeps lib/checklib.py's dependency scan from reading past the sentence) *)
 Import ListNotations.
 Open Scope N_scope.
 
